@@ -471,12 +471,16 @@ class StmtMixin:
   def for_zip(self, node, env, zp, spec, ordinal):
     """for x in zip(it_0, ..., it_k, strict=True) over fresh iterators (pos 0): the element of round t
     is the tuple of the t-th elements; with strict unequal lengths raise ValueError at the end."""
-    if not isinstance(node.target, ast.Name):
+    if isinstance(node.target, ast.Name):
+      tname = node.target.id
+    elif isinstance(node.target, ast.Tuple) and node.target.elts and isinstance(node.target.elts[0], ast.Name):
+      tname = node.target.elts[0].id          # `for a, b in zip(...)`: the index ghost is idx_a
+    else:
       raise Unsupported('for-zip target')
     if not zp.its:
       self.exec_block(node.orelse, env)
       return
-    var = f'idx_{node.target.id}'
+    var = f'idx_{tname}'
     n0 = zp.its[0].src.n
     env[var] = VInt(0)
     self.check_invariants(spec, env, ordinal, 'entry')
@@ -497,7 +501,7 @@ class StmtMixin:
         if it_.on_elem is not None:
           it_.on_elem(i, ev_)
         elems.append(ev_)
-      env[node.target.id] = VTuple(elems)
+      self.assign_target(node.target, VTuple(elems), env)
       try:
         self.exec_block(node.body, env)
       except BreakSig:
@@ -516,10 +520,14 @@ class StmtMixin:
   def for_range(self, node, env, rng, spec, ordinal, seq=None):
     """for x in range(lo, hi): cut at the invariant; in invariants the loop
     variable denotes the index of the *next* iteration."""
-    if not isinstance(node.target, ast.Name):
+    if isinstance(node.target, ast.Name):
+      tname = node.target.id
+    elif seq is not None and isinstance(node.target, ast.Tuple) and node.target.elts and isinstance(node.target.elts[0], ast.Name):
+      tname = node.target.elts[0].id        # `for a, b in seq_of_pairs`: the index ghost is idx_a
+    else:
       raise Unsupported('for-range target')
-    var = node.target.id if seq is None else f'idx_{node.target.id}'
-    had = env.get(node.target.id)
+    var = tname if seq is None else f'idx_{tname}'
+    had = env.get(tname)
     env[var] = VInt(rng.lo)
     self.check_invariants(spec, env, ordinal, 'entry')
     self.havoc_loop(node, env, spec, extra_names=[var])
@@ -531,7 +539,7 @@ class StmtMixin:
       self.assume(self.spec(inv, env, self.entry_old))
     if self.branch(i < rng.hi):
       if seq is not None:
-        env[node.target.id] = self.wrap(seq.kind, z3.Select(seq.arr, i))
+        self.assign_target(node.target, self.wrap(seq.kind, z3.Select(seq.arr, i)), env)
       try:
         self.exec_block(node.body, env)
       except BreakSig:
